@@ -255,7 +255,25 @@ where
     I: ExactSizeIterator<Item = X> + DoubleEndedIterator,
 {
     let mut out = Vec::new();
-    for w in script {
+    for (pos, w) in script.iter().enumerate() {
+        // 3 / 4: the rest of the iterator, by value, through fold / rfold (what for_each, sum, rev().for_each .. run on);
+        // the script ends there
+        if *w == 3 || *w == 4 {
+            let _ = pos;
+            let items: Vec<String> = if *w == 3 {
+                it.fold(Vec::new(), |mut acc, x| {
+                    acc.push(format!("Some({})", show(x)));
+                    acc
+                })
+            } else {
+                it.rfold(Vec::new(), |mut acc, x| {
+                    acc.push(format!("Some({})", show(x)));
+                    acc
+                })
+            };
+            out.extend(items);
+            return format!("[{}]", out.join(","));
+        }
         match w {
             0 => out.push(match it.next() {
                 Some(x) => format!("Some({})", show(x)),
